@@ -6,7 +6,8 @@ from penman.exceptions import DecodeError
 from penman.tree import Tree
 
 from pv.gen import strings, texts, trees
-from pv.harness import Enum, Hyp
+from pv.gen import corpus
+from pv.harness import Enum, Fuzz, Hyp
 from pv.props.common import OPTS, short, tree_classes, tree_stats
 from pv.ref import interp
 from pv.ref import lex as rlex
@@ -149,6 +150,8 @@ ALPHA = list('()/:~"\\# \na1')
 def stages(tier):
     L = 5 if tier == 'quick' else 6
     return [
+        Fuzz('coverage-guided-bytes', 0, 2000000, decode=lambda data: {'k': 'text', 's': data.decode('utf-8', 'ignore'), 'multi': True},
+             seeds=corpus.test_strings(), dictionary=corpus.DICTIONARY, max_len=160),
         Hyp('assembled-trees', _tree_cases, 4000, 150000),
         Hyp('spaced-texts', _text_cases, 4000, 150000),
         Enum('short-strings',
